@@ -6,6 +6,8 @@ import CookModel.Lemmas.ScaleMore
 import CookModel.Lemmas.ScaleAnalysis
 import CookModel.Lemmas.ClosingStream
 import CookModel.Lemmas.FitChoice
+import CookModel.Num.ScaleM
+import CookModel.Lemmas.StdMetaLists
 /-
   C08  Scaling multiplies exactly the scalable amounts and nothing else.
 
@@ -449,5 +451,138 @@ example : (scaleIngredient (Converter.bundled Rat) 1
     { name := ['f'], alias := none, quantity := some ⟨.linear (.number (.regular (3/2))), some ['k','g']⟩,
       note := none, reference := none, relation := ⟨.definition [] true, none⟩, modifiers := .empty }).1.quantity
     = some ⟨.number (.regular (3/2)), some ['k','g']⟩ := by decide +kernel
+
+/-! ## second audit (wave 5, notes/audit-C08.md): the recipe WITH its metadata map and its `data` field
+
+  `Serde.FullRecipe` carries what `Recipe` of Analysis/Model.lean leaves out: the metadata map (an opaque
+  JSON-representable mapping) and `data` (`Servings` before, `Scaled` after scaling).  `scaleM`, `scaleToServingsM`,
+  `defaultScaleM`, `setServingsM`, `convertM` (Num/ScaleM.lean) are the methods of src/scale.rs / src/convert/mod.rs on
+  it; their f64 instances are compared with the code by the operation `scm` (whole JSON image of the result). -/
+
+/-- **Metadata frame** (clause "… and metadata physically unchanged"): `scale`, `scale_to_servings`, `default_scale`
+    return the metadata map they were given, `convert` of a scaled recipe leaves the metadata map and the scaling data
+    alone, `set_servings` changes nothing but the servings list — for every recipe, factor, target, system, converter. -/
+theorem C08_metadata_frame (c : Converter Rat) (r : Serde.FullRecipe Rat (ScalableValue Rat) Serde.Servings)
+    (f : Rat) (n : Nat) (to : System) (s : Serde.FullRecipe Rat (Value Rat) (Serde.Scaled Rat)) :
+    (scaleM c r f).metadata = r.metadata ∧ (scaleToServingsM c r n).metadata = r.metadata ∧
+    (defaultScaleM r).metadata = r.metadata ∧
+    ((convertM c to s).1.metadata = s.metadata ∧ (convertM c to s).1.data = s.data) ∧
+    (∀ l, (setServingsM r l).metadata = r.metadata ∧ (setServingsM r l).recipe = r.recipe ∧
+      servingsM (setServingsM r l) = some l) :=
+  ⟨rfl, rfl, rfl, ⟨rfl, rfl⟩, fun _ => ⟨rfl, rfl, rfl⟩⟩
+
+/-- The component tables of the wrapper are those of `recipeScale` / `recipeDefaultScale` / `recipeConvert`, so every
+    per-component theorem above (and of C09) speaks about the recipe that carries the metadata. -/
+theorem C08_full_recipe_components (c : Converter Rat) (r : Serde.FullRecipe Rat (ScalableValue Rat) Serde.Servings)
+    (f : Rat) (to : System) (s : Serde.FullRecipe Rat (Value Rat) (Serde.Scaled Rat)) :
+    (scaleM c r f).recipe = (recipeScale c r.recipe f).1 ∧
+    (defaultScaleM r).recipe = recipeDefaultScale r.recipe ∧
+    (convertM c to s).1.recipe = (recipeConvert c to s.recipe).1 ∧
+    (convertM c to s).2 = (recipeConvert c to s.recipe).2 :=
+  ⟨rfl, rfl, rfl, rfl⟩
+
+/-- **The scaling data names the case that applied, for every component kind, whatever the factor or target.**
+    `scale(f)` and `scale_to_servings(n)` always return `Scaled::Scaled` — never `DefaultScaling`, also when the
+    factor is 1 or `n` is the declared servings — recording the factor and, position by position, for ingredients,
+    cookware and timers alike: `NoQuantity` without a quantity, `Fixed`, `Scaled`, `Error`; `default_scale` returns
+    `Scaled::DefaultScaling`. -/
+theorem C08_scaled_data (c : Converter Rat) (r : Serde.FullRecipe Rat (ScalableValue Rat) Serde.Servings)
+    (f : Rat) (n : Nat) :
+    (scaleM c r f).data =
+      .scaled f (r.recipe.ingredients.map (fun i => (outcomeOf (i.quantity.map (·.value))).toSerde))
+        (r.recipe.cookware.map (fun k => (outcomeOf k.quantity).toSerde))
+        (r.recipe.timers.map (fun t => (outcomeOf (t.quantity.map (·.value))).toSerde)) ∧
+    (scaleToServingsM c r n).data =
+      .scaled ((n : Rat) / (servingsBase r.data : Rat))
+        (r.recipe.ingredients.map (fun i => (outcomeOf (i.quantity.map (·.value))).toSerde))
+        (r.recipe.cookware.map (fun k => (outcomeOf k.quantity).toSerde))
+        (r.recipe.timers.map (fun t => (outcomeOf (t.quantity.map (·.value))).toSerde)) ∧
+    (defaultScaleM r).data = .defaultScaling := by
+  have key : ∀ g : Rat, (scaleM c r g).data =
+      .scaled g (r.recipe.ingredients.map (fun i => (outcomeOf (i.quantity.map (·.value))).toSerde))
+        (r.recipe.cookware.map (fun k => (outcomeOf k.quantity).toSerde))
+        (r.recipe.timers.map (fun t => (outcomeOf (t.quantity.map (·.value))).toSerde)) := by
+    intro g
+    obtain ⟨h1, h2, h3, _⟩ := C08_outcomes_align c r.recipe g
+    simp only [scaleM, ScaledData.toScaled, h1, h2, h3, List.map_map, Function.comp_def]
+    rfl
+  exact ⟨key f, key _, rfl⟩
+
+/-- **The base of `scale_to_servings` is the first entry of the recipe's own servings list** (`servings()`, the
+    `data` field) — after `set_servings` the list that was set — and never the metadata map: with a non-empty list
+    `b :: _` the call is `scale(n / b)`, without one (or with an empty one) `scale(n)`; replacing the metadata map by
+    any other leaves the scaled components and the scaling data as they are. -/
+theorem C08_servings_base (c : Converter Rat) (r : Serde.FullRecipe Rat (ScalableValue Rat) Serde.Servings)
+    (n : Nat) :
+    (∀ b rest, servingsM r = some (b :: rest) → scaleToServingsM c r n = scaleM c r ((n : Rat) / (b : Rat))) ∧
+    ((servingsM r = none ∨ servingsM r = some []) → scaleToServingsM c r n = scaleM c r (n : Rat)) ∧
+    (∀ b rest, scaleToServingsM c (setServingsM r (b :: rest)) n =
+      scaleM c (setServingsM r (b :: rest)) ((n : Rat) / (b : Rat))) ∧
+    (∀ m, (scaleToServingsM c { r with metadata := m } n).recipe = (scaleToServingsM c r n).recipe ∧
+      (scaleToServingsM c { r with metadata := m } n).data = (scaleToServingsM c r n).data) := by
+  have h1 : ((n : Rat) / ((1 : Nat) : Rat)) = (n : Rat) := by
+    have : ((1 : Nat) : Rat) = 1 := rfl
+    rw [this]; grind
+  refine ⟨?_, ?_, ?_, fun m => ⟨rfl, rfl⟩⟩
+  · intro b rest h
+    simp only [servingsM] at h
+    simp only [scaleToServingsM, h, servingsBase]
+    rfl
+  · rintro (h | h) <;> simp only [servingsM] at h <;> simp only [scaleToServingsM, h, servingsBase] <;>
+      exact congrArg (scaleM c r) h1
+  · intro b rest
+    simp only [scaleToServingsM, setServingsM, servingsBase]
+    rfl
+
+/-- **"First declared"**: the servings list stored for scaling is `value_as_servings` of the metadata value
+    (`C13_servings_stored`), and its first entry — the base of `scale_to_servings` — is the number of the FIRST
+    declared entry: of a single number that number, of a list the number its first element states, of a text
+    `a|b|…` the number its first `|`-separated entry starts with.  (An implementation that reorders the declared
+    list, e.g. by sorting it while looking for duplicates, violates this.) -/
+theorem C08_servings_first_declared (v : SM.Y) (b : Nat) (rest : List Nat)
+    (h : SM.valueAsServings v = some (b :: rest)) (c : Converter Rat) (r : ScalableRecipe Rat) (n : Nat) :
+    recipeScaleToServings c r (SM.valueAsServings v) n = recipeScale c r ((n : Rat) / (b : Rat)) ∧
+    (∀ k, v = .num k → k.u64 = some b ∧ rest = []) ∧
+    (∀ y ys, v = .seq (y :: ys) → SM.Spec.ServingElem y b) ∧
+    (∀ s, v = .str s → ∃ e es, SM.SplitBy '|' s (e :: es) ∧ SM.Spec.LeadNat (SM.trim e) b) := by
+  have hs := (SM.valueAsServings_iff v (b :: rest)).mp h
+  refine ⟨?_, ?_, ?_, ?_⟩
+  · rw [h]; exact (C08_servings_is_factor c r n).1 b rest
+  · intro k hv; subst hv
+    obtain ⟨m, hm, _, hl⟩ := hs
+    simp only [List.cons.injEq] at hl
+    exact ⟨hl.1 ▸ hm, hl.2⟩
+  · intro y ys hv; subst hv
+    exact hs.1.1
+  · intro s hv; subst hv
+    obtain ⟨es, hsp, hf, _⟩ := hs
+    cases es with
+    | nil => exact absurd hf (by simp [SM.Spec.Forall2])
+    | cons e es => exact ⟨e, es, hsp, hf.1.1⟩
+
+namespace C08Ex
+/-- `---⏎servings: 2|4⏎title: t⏎---⏎@flour{500%g} @salt{=1%pinch} #pan{2} ~{90%s}` -/
+def full : Serde.FullRecipe Rat (ScalableValue Rat) Serde.Servings :=
+  { metadata := [(['s', 'e', 'r', 'v', 'i', 'n', 'g', 's'], .str ['2', '|', '4']), (['t', 'i', 't', 'l', 'e'], .str ['t'])],
+    recipe := scmExampleRecipe, data := some [2, 4] }
+end C08Ex
+
+/-- the wrapper theorems speak about something: `scale_to_servings(6)` of a recipe declared for `2|4` is `scale(3)`
+    (flour 1.5 kg, outcomes `Scaled, Fixed | Fixed | Fixed`), the metadata stay; after `set_servings([3, 2])` the
+    same call is `scale(2)` (flour 1 kg) although the metadata still say `2|4` -/
+example :
+    ((scaleToServingsM Ex.conv C08Ex.full 6).recipe.ingredients.map (·.quantity)).head? =
+      some (some ⟨.number (.regular (3/2)), some ['k','g']⟩) ∧
+    ((scaleToServingsM Ex.conv (setServingsM C08Ex.full [3, 2]) 6).recipe.ingredients.map (·.quantity)).head? =
+      some (some ⟨.number (.regular 1), some ['k','g']⟩) := by
+  decide +kernel
+example : (scaleToServingsM Ex.conv C08Ex.full 6).metadata = C08Ex.full.metadata ∧
+    (scaleToServingsM Ex.conv (setServingsM C08Ex.full [3, 2]) 6).metadata = C08Ex.full.metadata := ⟨rfl, rfl⟩
+
+/-- the hypothesis of `C08_servings_first_declared` is satisfiable with a list that is NOT in ascending order -/
+example : SM.valueAsServings (.seq [.str ['4'], .str ['2']]) = some [4, 2] := by
+  have h : SM.rawServings (.seq [.str ['4'], .str ['2']]) = some [4, 2] := by decide +kernel
+  have hd : SM.dedupLen [4, 2] = ([4, 2] : List Nat).length := (SM.dedupLen_eq_iff _).mpr (by decide)
+  simp [SM.valueAsServings, h, hd]
 
 end Cook
